@@ -187,6 +187,7 @@ func c18Command(c *core.Ctx, k *core.Case) {
 		c.Fail(k, "list-marshal-error", err.Error())
 		return
 	}
+	c.Hold(k, "uePolicyContainer.UEPolicySectionManagementListContent.MarshalBinary", content)
 	want := refSubLists(model)
 	if !bytes.Equal(content, want) {
 		c.Fail(k, "list-layout", fmt.Sprintf("UEPolicySectionManagementListContent.MarshalBinary = %s, D.6.2 layout with TS 24.008 PLMN octets %s", hx(content), hx(want)))
@@ -199,6 +200,31 @@ func c18Command(c *core.Ctx, k *core.Case) {
 	}
 	if d := cmpSubLists(model, back); d != "" {
 		c.Fail(k, "list-roundtrip", fmt.Sprintf("%s (bytes %s)", d, hx(content)))
+	}
+	// second marshal after the list was extended through the API: every length must be
+	// recomputed from the new content (nothing learnt by the first marshal may stick)
+	if len(model) > 0 {
+		r2 := prng.New(uint64(k.I[0]) ^ 0x5a5a)
+		si := r2.Intn(len(model))
+		extra := uInstr{upsc: uint16(r2.Uint32()), parts: []uPart{{typ: byte(1 + r2.Intn(4)), val: r2.Bytes(r2.Intn(20))}}}
+		model2 := append([]uSub(nil), model...)
+		model2[si].instrs = append(append([]uInstr(nil), model[si].instrs...), extra)
+		var li uePolicyContainer.Instruction
+		li.SetUpsc(extra.upsc)
+		var lp uePolicyContainer.UEPolicyPart
+		lp.UEPolicyPartType.SetPartType(extra.parts[0].typ)
+		lp.SetPartContent(cloneB(extra.parts[0].val))
+		li.UEPolicySectionContents.AppendUEPolicyPart(&lp)
+		lc[si].UEPolicySectionManagementSubListContents.AppendInstruction(li)
+		// and to the list decoded from the first encoding
+		back[si].UEPolicySectionManagementSubListContents.AppendInstruction(li)
+		want2 := refSubLists(model2)
+		if c2, err := lc.MarshalBinary(); err != nil || !bytes.Equal(c2, want2) {
+			c.Fail(k, "remarshal-after-append", fmt.Sprintf("after AppendInstruction on sublist %d a second MarshalBinary gives %s (err %v), lengths computed from the new content give %s", si, hx(c2), err, hx(want2)))
+		}
+		if c3, err := back.MarshalBinary(); err != nil || !bytes.Equal(c3, want2) {
+			c.Fail(k, "remarshal-decoded-after-append", fmt.Sprintf("a decoded list extended by AppendInstruction on sublist %d marshals to %s (err %v), expected %s", si, hx(c3), err, hx(want2)))
+		}
 	}
 	// whole message through the delivery service
 	msg := uePolicyContainer.NewUePolDeliverySer()
@@ -220,6 +246,7 @@ func c18Command(c *core.Ctx, k *core.Case) {
 		c.Fail(k, "command-encode-error", err.Error())
 		return
 	}
+	c.Hold(k, "uePolicyContainer.UePolDeliverySer.UePolDeliverySerEncode", wire)
 	if len(wire) < 5 || wire[0] != pti || wire[1] != uePolicyContainer.MsgTypeManageUEPolicyCommand || int(wire[3])<<8|int(wire[4]) != len(content) || !bytes.Equal(wire[5:5+len(content)], content) {
 		c.Fail(k, "command-layout", fmt.Sprintf("encoded command %s does not carry PTI, type, length %d and the list contents", hx(wire), len(content)))
 		return
